@@ -592,6 +592,67 @@ def c_override(ctx, case):
                          f"class names that handler")
 
 
+class _Boom(Exception):
+    pass
+
+
+RAISED = [AttributeError, KeyError, TypeError, LookupError, ValueError, NotImplementedError,
+          _Boom, AttributeError]      # (not StopIteration: generators turn it into RuntimeError)
+
+
+@check("C04.raise")
+def c_raise(ctx, case):
+    """Dispatch invokes the ONE handler the rule selects; what that handler raises is the
+    caller's to see: the very exception object, with no other handler tried on that node
+    afterwards (an AttributeError raised inside a handler is not a missing handler)."""
+    e, which = case
+    occ = [o for o in occurrences(e) if isinstance(o, p.Expression)]
+    names = sorted({type(o).mapper_method for o in occ
+                    if isinstance(getattr(type(o), "mapper_method", None), str)})
+    for base in (IdentityMapper, CombineCounter, CachedIdentityMapper, WalkMapper):
+        for M in names:
+            if not callable(getattr(base, M, None)):
+                continue
+            exc0 = RAISED[which % len(RAISED)]("raised inside the handler")
+            entered = []
+
+            def h(self, expr, *a, _exc=exc0, _entered=entered, **k):
+                _entered.append(expr)
+                raise _exc
+            log = []
+
+            def spy(name):
+                def f(self, expr, *a, **k):
+                    log.append((name, expr))
+                    return getattr(base, name)(self, expr, *a, **k)
+                return f
+            body = {n: spy(n) for n in dir(base)
+                    if n.startswith("map_") and n != M and callable(getattr(base, n))}
+            body[M] = h
+            cls = type(f"Raises_{M}", (base,), body)
+            if not any(_resolved(o, cls) == M for o in occ):
+                continue
+            ctx.case(None)
+            ctx.count("raising_handlers")
+            try:
+                cls()(e)
+                got = None
+            except RecursionError:
+                raise
+            except BaseException as ex:  # noqa: BLE001
+                got = ex
+            if not entered:
+                continue        # refused or failed before reaching the node: nothing to swallow
+            after = [n for n, x in log if x is entered[0]]
+            if got is exc0 and len(entered) == 1 and not after:
+                continue
+            ctx.fail("C04.raise", case, f"raise:{base.__name__}:{type(exc0).__name__}",
+                     f"{base.__name__} subclass whose {M} raises {type(exc0).__name__} over "
+                     f"{G.src(e)}: the handler was entered {len(entered)} time(s), the call ended "
+                     f"with {got!r} instead of that exception"
+                     + (f"; handlers {after} also ran on the same node" if after else ""))
+
+
 def _resolved(o, mapper_cls):
     """handler name by the documented rule: the node's own, else the nearest ancestor's that
     the mapper implements"""
@@ -708,6 +769,32 @@ def c_combine(ctx, case):
                      f"Collector over {G.src(e)} = {sorted(got)}, variables {sorted(allv)}")
     except REFUSAL:
         pass
+    # a collector whose leaf results are LONG-LIVED objects (a table of per-name sets handed
+    # out as they are): folding child results must not write into them
+    table = {}
+
+    class TableCollector(Collector):
+        def map_variable(self, expr, *a, **k):
+            return table.setdefault(expr.name, {expr.name})
+    try:
+        tc = TableCollector()
+        first = set(tc(e, *args, **kw))
+        second = set(tc(e, *args, **kw))
+        ctx.count("collector_argument_audits")
+        spoiled = {k_: sorted(v) for k_, v in table.items() if v != {k_}}
+        if spoiled or first != second:
+            ctx.fail("C04.combine", case, "collector:child-result-modified",
+                     f"Collector over {G.src(e)}: the per-leaf result sets handed to combine() "
+                     f"were written into: {spoiled}; first run {sorted(first)}, second run "
+                     f"{sorted(second)}")
+    except REFUSAL:
+        pass
+    vals = [{1}, {2, 3}, set(), {4}]
+    out = Collector().combine(vals)
+    if vals != [{1}, {2, 3}, set(), {4}] or set(out) != {1, 2, 3, 4}:
+        ctx.fail("C04.combine", case, "collector:combine-arguments-modified",
+                 f"Collector().combine([{{1}}, {{2, 3}}, set(), {{4}}]) = {out}; its arguments "
+                 f"afterwards: {vals}")
     # the stock collectors derived from Collector, with all composite kinds switched off and
     # with calls descended into: they too fold in every child (keyword-argument values, slice
     # parts, conditions, ...).  The dependency model is C09's independent one.
@@ -872,6 +959,8 @@ def workload(ctx):
                 ctx.run("C04.argflow", (e, calls))
             if isinstance(e, p.Expression) and i % 4 == 1:
                 ctx.run("C04.override", (e,))
+            if isinstance(e, p.Expression) and i % 4 == 2:
+                ctx.run("C04.raise", (e, i // 4))
             nstop = rng.choice([0, 0, 1, 2])
             ctx.run("C04.walk", (e, args, kw, tuple(rng.randrange(10**6) for _ in range(nstop))))
             ctx.run("C04.identity", (e, args, kw))
@@ -880,6 +969,7 @@ def workload(ctx):
                 ctx.run("C04.callback", (e,))
         for k, v in tr.handlers().items():
             ctx.count("handler:" + k, v)
+    ctx.floor("raising_handlers", 500)
     ctx.floor("dispatches", 2000)
     ctx.floor("dispatch_histories", 20)
     ctx.floor("derived_names", 10)
@@ -889,6 +979,7 @@ def workload(ctx):
     ctx.floor("identity_maps", 1500)
     ctx.floor("rewrites", 1000)
     ctx.floor("combines", 1500)
+    ctx.floor("collector_argument_audits", 1000)
     for h in ("WalkMapper.map_slice", "WalkMapper.map_substitution", "WalkMapper.map_derivative",
               "WalkMapper.map_call_with_kwargs", "WalkMapper.map_multivector",
               "IdentityMapper.map_slice", "IdentityMapper.map_substitution",
